@@ -7,7 +7,7 @@ def A(d):
     return lop("add", a=d, d=d)
 
 
-W = lambda dl=0: lop("wait", dl=dl, d=0)
+W = lambda dl=0: lop("wait", dl=dl, d=0)  # noqa
 VAL = lop("value", d=0)
 CONFIGS = {
     "q": [("c_2dec_w", dict(progs=[[A(-1)], [A(-1)], [W()]], init={"V0": 2}, V0=2)),
